@@ -174,7 +174,14 @@ func (x *Exec) runBlocks(fr *Frame, order []*ssa.BasicBlock, st0 *State, pc0 str
 			pc, st = pc0, st0.clone()
 			for _, ins := range b.Instrs {
 				if phi, ok := ins.(*ssa.Phi); ok {
-					fr.vals[phi] = x.freshVal("probe_"+phi.Name(), phi.Type())
+					pv := x.freshVal("probe_"+phi.Name(), phi.Type())
+					fr.vals[phi] = pv
+					if isSlice(phi.Type()) {
+						if x.probePhis == nil {
+							x.probePhis = map[string]*ssa.Phi{}
+						}
+						x.probePhis[pv.C[0]] = phi
+					}
 				}
 			}
 		default:
@@ -302,16 +309,6 @@ func (x *Exec) enterLoop(fr *Frame, loop *Loop, st *State, pc string) {
 	// 1. probe which heap components the body may modify
 	mods := x.probeLoop(fr, loop, st, pc)
 	allocHead := x.alloc(st)
-	// 2. havoc phis
-	for _, ins := range loop.Header.Instrs {
-		phi, ok := ins.(*ssa.Phi)
-		if !ok {
-			break
-		}
-		v := x.freshVal(phiHint(phi), phi.Type())
-		fr.vals[phi] = v
-		x.assume(pc, x.typeInv(v, st))
-	}
 	// 3. havoc modified heap components, framed by object
 	var names []string
 	for name := range mods {
@@ -352,6 +349,16 @@ func (x *Exec) enterLoop(fr *Frame, loop *Loop, st *State, pc string) {
 	}
 	if _, ok := mods["$alloc"]; !ok {
 		// allocation counter is monotone anyway
+	}
+	// havoc phis (after the heap, so that their type invariants refer to the loop-head allocation counter)
+	for _, ins := range loop.Header.Instrs {
+		phi, ok := ins.(*ssa.Phi)
+		if !ok {
+			break
+		}
+		v := x.freshVal(phiHint(phi), phi.Type())
+		fr.vals[phi] = v
+		x.assume(pc, x.typeInv(v, st))
 	}
 	// 4. assume the invariant
 	fr.loopHeadSt[loop.Header] = st.clone()
@@ -407,6 +414,22 @@ func (x *Exec) probeLoop(fr *Frame, loop *Loop, st *State, pc string) map[string
 				continue
 			}
 			if termMentionsFreshAfter(t, nFresh) {
+				// a loop-carried slice that only ever grows by append keeps its initial backing
+				// array or moves to arrays allocated inside the loop
+				if phi, ok := x.probePhis[t]; ok && phi.Block() == loop.Header && appendOnlyPhi(phi, loop) {
+					delete(pi.targets, t)
+					for k, e := range phi.Edges {
+						if !isLatch(loop, phi.Block().Preds[k]) {
+							if ev, ok2 := fr.vals[e]; ok2 || isConst(e) {
+								if !ok2 {
+									ev = x.valueOf(fr, e)
+								}
+								pi.targets[ev.C[0]] = true
+							}
+						}
+					}
+					continue
+				}
 				pi.whole = true
 			}
 		}
@@ -630,4 +653,43 @@ func (x *Exec) clauseActive(c *Contract, cl *Clause) bool {
 		return true
 	}
 	return hasTag(tags, x.property)
+}
+
+func isConst(v ssa.Value) bool { _, ok := v.(*ssa.Const); return ok }
+
+// appendOnlyPhi: every value flowing into the slice-typed phi around the loop is the phi itself,
+// a re-slice of it, or append(<such a value>, ...).
+func appendOnlyPhi(phi *ssa.Phi, loop *Loop) bool {
+	seen := map[ssa.Value]bool{}
+	var ok func(v ssa.Value) bool
+	ok = func(v ssa.Value) bool {
+		if v == phi || seen[v] {
+			return true
+		}
+		seen[v] = true
+		switch c := v.(type) {
+		case *ssa.Call:
+			if b, isB := c.Call.Value.(*ssa.Builtin); isB && b.Name() == "append" {
+				return ok(c.Call.Args[0])
+			}
+		case *ssa.Slice:
+			return ok(c.X)
+		case *ssa.Phi:
+			for _, e := range c.Edges {
+				if !ok(e) {
+					return false
+				}
+			}
+			return true
+		}
+		return false
+	}
+	for k, e := range phi.Edges {
+		if isLatch(loop, phi.Block().Preds[k]) {
+			if !ok(e) {
+				return false
+			}
+		}
+	}
+	return true
 }
